@@ -168,6 +168,8 @@ def h_program(params, m2, m3, a1, a2, a3, depth, raise_at_end, catch_level, chec
     raise Assume()
   levels = [(m1, a1)]
   if d >= 2:
+    if params.get('m2') is not None and m2 != params['m2']:
+      raise Assume()
     levels.append((_pick(list(range(len(ROWS))), m2), a2))
   if d >= 3:
     levels.append((_pick(list(range(len(ROWS))), m3), a3))
@@ -257,8 +259,9 @@ def shards(tier, seed):
   quick = tier == 'quick'
   out = []
   for mi, name in enumerate(NAMES):
-    out.append(dict(name=f'program:{name}', fn='h_program', params=dict(m1=mi, max_depth=2 if quick else 3), args=_ARGS,
-                    budget_s=50 if quick else 600, per_path_s=20))
+    for mj, name2 in enumerate(NAMES):
+      out.append(dict(name=f'program:{name}>{name2}', fn='h_program', params=dict(m1=mi, m2=mj, max_depth=2 if quick else 3),
+                      args=_ARGS, budget_s=30 if quick else 300, per_path_s=20))
   return out
 
 
